@@ -134,8 +134,23 @@ func (f FeeEstimateInfo) Estimate(estimator chainfee.Estimator,
 	// on the backend. For bitcoind, it is effectively max(relay fee, min
 	// mempool fee).
 	if feeRate < minFeeRate {
-		return 0, fmt.Errorf("%w: got %v, minimum is %v",
-			ErrFeePreferenceTooLow, feeRate, minFeeRate)
+		// A manual fee rate below the relay fee is the caller's
+		// mistake, so we let them know.
+		if f.ConfTarget == 0 {
+			return 0, fmt.Errorf("%w: got %v, minimum is %v",
+				ErrFeePreferenceTooLow, feeRate, minFeeRate)
+		}
+
+		// An estimated fee rate below the relay fee, on the other
+		// hand, is not: the estimator may have returned its fallback
+		// fee rate or only clamps its answer to the static fee floor.
+		// Since the relay fee is the lowest fee rate that can be used
+		// for the given conf target, we use it instead.
+		log.Warnf("Estimated fee rate %v for conf target %v is below "+
+			"the relay fee rate %v, using relay fee rate instead",
+			feeRate, f.ConfTarget, minFeeRate)
+
+		feeRate = minFeeRate
 	}
 
 	// If a maxFeeRate is specified and the estimated fee rate is above the
